@@ -2,47 +2,29 @@ package main
 
 import (
 	"fmt"
-	"os"
-	"strconv"
 
-	"google.golang.org/protobuf/encoding/protowire"
 	testpb "google.golang.org/protobuf/internal/testprotos/test"
+	edpb "google.golang.org/protobuf/internal/testprotos/testeditions"
 	"google.golang.org/protobuf/proto"
+	"google.golang.org/protobuf/types/dynamicpb"
 )
 
-// nested builds levels of: ext18{ corecursive(2){ ext18{ ... {a:1} } } }
-func nested(levels int) []byte {
-	inner := []byte{0x08, 0x01}
-	// sizes[i] = length of content at level i (0 = innermost NestedMessage content)
-	sizes := make([]int, 2*levels+1)
-	sizes[0] = len(inner)
-	for i := 1; i <= 2*levels; i++ {
-		sizes[i] = 1 + 1 + protowire.SizeVarint(uint64(sizes[i-1])) + sizes[i-1] - 1
-		// tag for 18 is 2 bytes (0x92 0x01), tag for 2 is 1 byte
-		if i%2 == 1 { // wrapping a NestedMessage content into TestAllExtensions content: field 18 (2-byte tag)
-			sizes[i] = 2 + protowire.SizeVarint(uint64(sizes[i-1])) + sizes[i-1]
-		} else { // wrapping TestAllExtensions content into NestedMessage content: field 2
-			sizes[i] = 1 + protowire.SizeVarint(uint64(sizes[i-1])) + sizes[i-1]
-		}
-	}
-	b := make([]byte, 0, sizes[2*levels-1]+16)
-	for i := 2*levels - 1; i >= 1; i-- {
-		if i%2 == 1 {
-			b = protowire.AppendTag(b, 18, protowire.BytesType)
-		} else {
-			b = protowire.AppendTag(b, 2, protowire.BytesType)
-		}
-		b = protowire.AppendVarint(b, uint64(sizes[i-1]))
-	}
-	return append(b, inner...)
-}
-
 func main() {
-	levels, _ := strconv.Atoi(os.Args[1])
-	limit, _ := strconv.Atoi(os.Args[2])
-	b := nested(levels)
-	fmt.Println("bytes:", len(b))
-	m := &testpb.TestAllExtensions{}
-	err := proto.UnmarshalOptions{RecursionLimit: limit}.Unmarshal(b, m)
-	fmt.Println("levels", levels, "limit", limit, "err:", err)
+	b := []byte{0x12, 0x00}
+	m := &edpb.TestOneofWithRequired{}
+	fmt.Println("editions generated Unmarshal:", proto.Unmarshal(b, m), " CheckInitialized:", proto.CheckInitialized(m))
+	_, err := proto.Marshal(m)
+	fmt.Println("  Marshal:", err)
+	d := dynamicpb.NewMessage(m.ProtoReflect().Descriptor())
+	fmt.Println("editions dynamicpb Unmarshal:", proto.Unmarshal(b, d))
+	// proto2 analogue in test.proto: TestRequiredForeign? oneof with required: TestAllTypes has oneof_nested_message? use TestRequiredForeign.OneofMessage
+	m2 := &testpb.TestRequiredForeign{}
+	fd := m2.ProtoReflect().Descriptor().Fields().ByName("oneof_message")
+	fmt.Println("proto2 oneof_message field:", fd)
+	if fd != nil {
+		b2 := []byte{byte(fd.Number()<<3 | 2), 0x00}
+		fmt.Println("proto2 generated Unmarshal:", proto.Unmarshal(b2, m2), "CheckInitialized:", proto.CheckInitialized(m2))
+		d2 := dynamicpb.NewMessage(m2.ProtoReflect().Descriptor())
+		fmt.Println("proto2 dynamicpb Unmarshal:", proto.Unmarshal(b2, d2))
+	}
 }
